@@ -83,6 +83,7 @@ Definition cn_step (cn : counters) (c : call) : counters :=
   | BuildStarted => mkCn (n_total cn) 0 0 0
   | Started _ => mkCn (n_total cn) (n_started cn + 1) (n_finished cn) (n_running cn + 1)
   | Finished _ _ _ => mkCn (n_total cn) (n_started cn) (n_finished cn + 1) (n_running cn - 1)
+  | BuildFinished => mkCn 0 (n_started cn) (n_finished cn) (n_running cn)
   | _ => cn
   end.
 (* the counters a finishing command's status line is formatted with: finished_edges_ already counts
@@ -120,7 +121,8 @@ Definition upiece (cfg : config) (u : ust) (c : call) : bytes * ust :=
   | Finished e code out =>
     let '(b, ow) := body cfg (u_owed u) e code out in
     (sline_direct cfg i (cn_print cn) e ++ b, mkU (cn_step cn c) ow (S i))
-  | BuildFinished | NewLine => ((if u_owed u then [b_lf] else []), mkU cn false (S i))
+  | BuildFinished => ((if u_owed u then [b_lf] else []), mkU (cn_step cn c) false (S i))
+  | NewLine => ((if u_owed u then [b_lf] else []), mkU cn false (S i))
   | Info m => (l_ninja ++ cstr m ++ [b_lf], mkU cn (u_owed u) (S i))
   | _ => ([], mkU (cn_step cn c) (u_owed u) (S i))
   end.
@@ -1055,7 +1057,8 @@ Definition spiece (cfg : config) (u : ust) (c : call) : bytes * ust :=
   | Finished e code out =>
     (sline_smart cfg i (cn_print cn) e ++ fst (body cfg true e code out),
      mkU (cn_step cn c) (snd (body cfg true e code out)) (S i))
-  | BuildFinished | NewLine => ((if u_owed u then [b_lf] else []), mkU cn false (S i))
+  | BuildFinished => ((if u_owed u then [b_lf] else []), mkU (cn_step cn c) false (S i))
+  | NewLine => ((if u_owed u then [b_lf] else []), mkU cn false (S i))
   | Info m => (l_ninja ++ cstr m ++ [b_lf], mkU cn (u_owed u) (S i))
   | _ => ([], mkU (cn_step cn c) (u_owed u) (S i))
   end.
